@@ -144,11 +144,24 @@ Register(a, rev, st, sf, af, pick) ==
             /\ reg' = rg1 /\ sig' = <<>> /\ res' = "ok"
             /\ UNCHANGED <<maxRev, signalled>>
        ELSE IF signalled /\ a = maxRev THEN      \* signalled replica registers again: re-signal
-            /\ sig' = <<[to |-> a, action |-> "start", torev |-> rev, best |-> rev,
-                         nreg |-> Cardinality({x \in Addr : rg1[x].on}), holders |-> {}]>>
-            /\ IF sf THEN /\ reg' = [rg1 EXCEPT ![a] = NoReg] /\ maxRev' = "" /\ signalled' = FALSE
-                          /\ res' = "refused"
-               ELSE reg' = rg1 /\ res' = "ok" /\ UNCHANGED <<maxRev, signalled>>
+            IF sf \/ st = "rebuilding" THEN
+                 /\ sig' = <<[to |-> a, action |-> "start", torev |-> rev, best |-> rev,
+                              nreg |-> Cardinality({x \in Addr : rg1[x].on}), holders |-> {}]>>
+                 /\ IF sf THEN /\ reg' = [rg1 EXCEPT ![a] = NoReg] /\ maxRev' = "" /\ signalled' = FALSE
+                               /\ res' = "refused"
+                    ELSE reg' = rg1 /\ res' = "ok" /\ UNCHANGED <<maxRev, signalled>>
+            ELSE \* ... and, as coded, the call then falls through to the election: a replica that
+                 \* registered with a higher revision count in the meantime takes over and is
+                 \* signalled as well (sig records the last signal; only maxRev can start)
+                 /\ pick \in Addr /\ rg1[pick].on
+                 /\ reg' = rg1 /\ maxRev' = pick /\ signalled' = TRUE /\ res' = "ok"
+                 /\ sig' = IF Cardinality({x \in Addr : rg1[x].on}) >= Quorum
+                            THEN <<[to |-> pick, action |-> "start", torev |-> rg1[pick].rev,
+                                    best |-> BestRev(rg1),
+                                    nreg |-> Cardinality({x \in Addr : rg1[x].on}),
+                                    holders |-> {x \in Cands(rg1) : acked \subseteq rlog[x]}]>>
+                            ELSE <<[to |-> a, action |-> "start", torev |-> rev, best |-> rev,
+                                    nreg |-> Cardinality({x \in Addr : rg1[x].on}), holders |-> {}]>>
        ELSE IF signalled /\ ~af THEN             \* somebody else is already signalled and alive
             /\ reg' = rg1 /\ sig' = <<>> /\ res' = "ok"
             /\ UNCHANGED <<maxRev, signalled>>
